@@ -308,7 +308,9 @@ class SymReal:
         return _ctx.cur().concretize_int(trunc_z3(self.z3()))
 
     def __index__(self):
-        raise SymError("symbolic real used as an index")
+        # an integer-valued term used where Python needs an int (range, indexing, shapes):
+        # enumerate its feasible values (fork per value)
+        return _ctx.cur().concretize_int(trunc_z3(self.z3()))
 
     def __bool__(self):
         return bool(self != 0)
